@@ -170,7 +170,7 @@ def main(argv=None):
     seed = int(os.environ.get('VERIF_SEED', '0') or 0)
     t0 = time.time()
     os.makedirs(BUILD, exist_ok=True)
-    evp = os.path.join(VERIF, 'evidence', pid + '.json')
+    evp = os.path.join(os.environ.get('VERIF_EVIDENCE_DIR', os.path.join(VERIF, 'evidence')), pid + '.json')
     os.makedirs(os.path.dirname(evp), exist_ok=True)
 
     unit_results = []
@@ -222,8 +222,21 @@ def main(argv=None):
         else:
             violations.append((path, f, found))
 
+    # ---- thorough tier: strength self-test (built-in mutations) and proactive replay search
+    selftest = None
+    proactive = None
+    if a.tier == 'thorough' and not violations and not undecided and not os.environ.get('VERIF_NESTED'):
+        from . import selftest as st
+        selftest = st.run(pid, VERIF, REPO)
+        proactive = replay.proactive(pid, P, REPO, VERIF, seed, [k.get('input_id') for k in load_known() if k.get('property') == pid])
+
     # ---- evidence
     ev = build_evidence(pid, P, a.tier, seed, unit_results, violations, known_hits, time.time() - t0)
+    if selftest is not None:
+        ev['coverage']['selftest'] = selftest
+    if proactive is not None:
+        ev['coverage']['replay_search'] = proactive
+    ev['wall_s'] = round(time.time() - t0, 2)
     json.dump(ev, open(evp, 'w'), indent=1)
 
     for k, f in known_hits:
@@ -241,6 +254,14 @@ def main(argv=None):
     if undecided:
         for r, u in undecided:
             print('UNDECIDED unit=%s: %s' % (r['unit'], json.dumps(u)[:1500]))
+        return 2
+    if selftest is not None:
+        bad = [m for m in selftest['results'] if not m['as_expected']]
+        if bad:
+            print('UNDECIDED: strength self-test mismatch (the machinery is weaker or noisier than documented): %s' % json.dumps(bad)[:1500])
+            return 2
+    if proactive is not None and proactive.get('disagreements'):
+        print('UNDECIDED: the concrete oracle found failing inputs although every obligation is discharged -- an assumed contract is wrong: %s' % json.dumps(proactive['disagreements'])[:1500])
         return 2
     tot = ev['coverage']
     print('OK property=%s tier=%s obligations=%s discharged=%s wall=%.1fs' % (pid, a.tier, tot.get('obligations'), tot.get('discharged'), ev['wall_s']))
